@@ -529,8 +529,8 @@ def run(tier, seed):
            "distinct_nontrivial": len(ctx.nontrivial),
            "rule": "non-trivial = (tool, program, input, observable) whose exact spectrum / coefficient set / reconstructed function is not constant and on which "
                    "the tool agreed with TLC's exact values",
-           "samples": ctx.samples, "exhaustive": False, "rejections": ctx.rejections[:8],
-           "negative_controls_rejected": c.get("negative_controls_rejected", 0) + c.get("coefficient_controls", 0) + c.get("reconstruct_controls", 0), **c}
+           "samples": ctx.samples, "exhaustive": False, "rejections": ctx.rejections[:8], **c}
+    cov["negative_controls_rejected"] = c.get("negative_controls_rejected", 0) + c.get("coefficient_controls", 0) + c.get("reconstruct_controls", 0)
     return CheckResult(coverage=cov, violations=ctx.viol, assumptions=[
         "partial: spectrum containment is exact (ring DFT of exact samples); coefficients() and reconstruct() are float results compared at 1e-8 / 1e-7 with "
         "TLC's exact values",
